@@ -414,6 +414,31 @@ def block_td(ctx, tm, psi):
         if verdict == "bad":
             run.violation(f"{nm}:td:order", replay_base(tm, v0, spec, T=T, steps=[2, 4, 8], errors=errs, observed_order=obs,
                                                          advertised=p, h1_terms=sorted(idx), w=w, phi=phi, amp=amp))
+    # adaptive embedded pair with several sub-steps inside one call: the callable must be
+    # evaluated at (time already covered inside the call) + c_i * tau
+    rk = str(rng.choice(EMBEDDED))
+    rtol = 1e-5
+    spec = dict(kind="tdrk", rk=rk, adaptive=True, adaptive_rtol=rtol, guess_dt=T / 6)
+    nm = name_of(spec)
+    try:
+        T2 = 1.5 * T
+        ref2 = td_reference(H0, H1, f, T2, v0)
+        out = evolve_n(psi, h_at, T2, 1, spec, big)
+        err = float(np.linalg.norm(dense_state(out) - ref2))
+        ctx.evald(("td", label, nm, "adaptive"))
+        run.count(f"td:{nm}:adaptive")
+        if not err <= 400 * rtol:
+            sig = f"{nm}:td:adaptive-vs-dense"
+            # the rejected-attempt defect of the adaptive loop also shows here: classify
+            try:
+                small = evolve_n(psi, h_at, T2, 1, dict(spec, guess_dt=T2 / 64), big)
+                if float(np.linalg.norm(dense_state(small) - ref2)) <= 400 * rtol:
+                    sig = f"{nm}:adaptive:after-rejected-attempt:wrong-result"
+            except Exception:
+                pass
+            run.violation(sig, replay_base(tm, v0, spec, T=T2, error=err, h1_terms=sorted(idx), w=w, phi=phi, amp=amp))
+    except Exception as e:
+        run.violation(f"{nm}:td:adaptive:exception:{exc_sig(e)}", replay_base(tm, v0, spec, T=T, error=repr(e)))
     # VMF with a callable (needs a full-rank state)
     spec = dict(kind=str(rng.choice(["vmf", "muvmf"])), force_ovlp=bool(rng.random() < 0.5), ivp_rtol=1e-8, ivp_atol=1e-10)
     nm = name_of(spec)
